@@ -86,11 +86,13 @@ int verif_IsCanceled(void) {
 }
 static int g_stalejmp;
 static int g_allow_jmp_outside;     /* scenarios that expect it record instead of exiting */
+extern void __sanitizer_print_stack_trace(void);
 void verif_longjmp(jmp_buf env, int val) {
     if (!g_in_process) {
         g_stalejmp++;
         if (g_tr) { tr("san stalejmp"); fflush(g_tr); }
         fprintf(stderr, "VERIF-STALEJMP: longjmp requested outside TPMLIB_Process\n");
+        __sanitizer_print_stack_trace();
         _exit(77);
     }
     longjmp(env, val);
